@@ -384,8 +384,23 @@ func (fr *Frame) callWithSpec(callee *ssa.Function, spec *FuncSpec, args []Val, 
 		if !spec.Extern && !fx.eng.useClause(c) {
 			continue
 		}
-		t := fx.hyp(func() T { return post.eval(c.E).asBool() })
-		fx.assume(st.guard, t)
+		// a clause that cannot be rendered for this instantiation (e.g. a
+		// generic contract applied to multi-component elements) is dropped:
+		// assuming less is sound
+		t, ok := func() (t T, ok bool) {
+			defer func() {
+				if r := recover(); r != nil {
+					if _, isU := r.(unsupported); !isU {
+						panic(r)
+					}
+					fx.noteAssumption("clause '" + c.Label + "' of " + key + " not used at an instantiation it cannot be rendered for")
+				}
+			}()
+			return fx.hyp(func() T { return post.eval(c.E).asBool() }), true
+		}()
+		if ok {
+			fx.assume(st.guard, t)
+		}
 	}
 	if key == "sync.(*Mutex).Lock" || key == "sync.(*Mutex).Unlock" {
 		fr.monitorHook(key == "sync.(*Mutex).Lock", args[0], st, pre, pos)
